@@ -188,7 +188,7 @@ def main_check(args):
     coverage["known_finding_examples"] = {k: v[0].get("summary", "") for k, v in kf_hits.items()}
     coverage["shards"] = len(results)
     if inconclusive:
-        coverage["inconclusive"] = inconclusive[:10]
+        coverage["inconclusive"] = [str(x)[-700:] for x in inconclusive[:10]]
     verdict = "violated" if violations else ("inconclusive" if inconclusive else "held")
     coverage["verdict"] = verdict
     ev = {"property_id": pid, "tier": tier, "seed": seed,
